@@ -70,6 +70,11 @@ pub struct SimConfig {
     /// milliseconds of REAL time the run is declared spinning (0 = off). The real clock is
     /// read only here and decides nothing else.
     pub spin_limit_ms: u64,
+    /// 0 = uniform random choice among runnable threads at every scheduling point;
+    /// 1 = sticky (the running thread keeps the baton with probability 7/8);
+    /// 2 = PCT-style priorities (highest-priority runnable thread runs; at a few random steps
+    ///     the running thread's priority drops below everybody else's)
+    pub sched_policy: u8,
     pub net: NetConfig,
     /// scripted payload faults: (n-th datagram copy delivered overall, fault)
     pub scripted_payload: Vec<(u64, PayloadFaultSpec)>,
@@ -84,6 +89,7 @@ impl Default for SimConfig {
             max_steps: 200_000,
             step_jitter_ns: 20_000,
             spin_limit_ms: 10_000,
+            sched_policy: 0,
             net: NetConfig::default(),
             scripted_payload: Vec::new(),
         }
@@ -299,6 +305,8 @@ pub(crate) struct ThreadSlot {
     pub scopes: Vec<String>,
     /// waker fired since the task last looked
     pub notified: bool,
+    /// PCT priority (higher runs first)
+    pub prio: u64,
 }
 
 pub(crate) struct Sock {
@@ -357,6 +365,7 @@ pub(crate) struct Inner {
     pub net: NetConfig,
     pub delivered_copies: u64,
     pub fingerprint: u64,
+    pub pct_floor: u64,
     os_handles: Vec<std::thread::JoinHandle<()>>,
     pub root_panic: Option<PanicInfo>,
 }
@@ -626,7 +635,29 @@ impl Inner {
                 }
             }
             if !cands.is_empty() {
-                let pick = cands[self.rng.usize_below(cands.len())];
+                let pick = match cfg.sched_policy {
+                    1 => {
+                        let cur = self.current;
+                        if cands.contains(&cur) && self.rng.below(8) != 0 {
+                            cur
+                        } else {
+                            cands[self.rng.usize_below(cands.len())]
+                        }
+                    }
+                    2 => {
+                        // a priority change point roughly every 200 steps: the thread that
+                        // would run is demoted below everybody else
+                        let top = *cands.iter().max_by_key(|t| self.threads[**t as usize].prio).unwrap();
+                        if self.rng.below(200) == 0 {
+                            self.pct_floor = self.pct_floor.saturating_sub(1);
+                            self.threads[top as usize].prio = self.pct_floor;
+                            *cands.iter().max_by_key(|t| self.threads[**t as usize].prio).unwrap()
+                        } else {
+                            top
+                        }
+                    }
+                    _ => cands[self.rng.usize_below(cands.len())],
+                };
                 if cfg.step_jitter_ns > 0 {
                     self.now += self.rng.below(cfg.step_jitter_ns + 1);
                 }
@@ -776,7 +807,10 @@ impl Sim {
             killed: false,
             scopes: Vec::new(),
             notified: false,
+            prio: 0,
         });
+        let pr = 1_000 + g.rng.below(1_000_000);
+        g.threads[tid as usize].prio = pr;
         g.stats.threads += 1;
         g.ev(parent, EvKind::Spawn { child: tid });
         let sim = self.clone();
@@ -922,6 +956,7 @@ pub fn run<F: FnOnce() + Send + 'static>(cfg: SimConfig, root: F) -> RunResult {
                 killed: false,
                 scopes: Vec::new(),
                 notified: false,
+                prio: 500_000,
             }],
             current: 0,
             events: BinaryHeap::new(),
@@ -941,6 +976,7 @@ pub fn run<F: FnOnce() + Send + 'static>(cfg: SimConfig, root: F) -> RunResult {
             net: cfg.net.clone(),
             delivered_copies: 0,
             fingerprint: 0,
+            pct_floor: 900,
             os_handles: Vec::new(),
             root_panic: None,
         }),
